@@ -159,10 +159,14 @@ def run(spin=SPIN, sigterm=stop, sigusr1=print_stack):
                 fnlist = deferredFns
                 deferredFns = []
 
-                # call the functions
+                # call the functions, an error in one of them must not
+                # take the rest of the list down with it
                 for fn, args, kwargs in fnlist:
 #                   if _debug: run._debug("    - call: %r %r %r", fn, args, kwargs)
-                    fn(*args, **kwargs)
+                    try:
+                        fn(*args, **kwargs)
+                    except Exception as err:
+                        run._exception("an error has occurred: %s", err)
 
                 # done with this list
                 del fnlist
@@ -209,10 +213,14 @@ def run_once():
                 fnlist = deferredFns
                 deferredFns = []
 
-                # call the functions
+                # call the functions, an error in one of them must not
+                # take the rest of the list down with it
                 for fn, args, kwargs in fnlist:
                     if _debug: run_once._debug("    - call: %r %r %r", fn, args, kwargs)
-                    fn(*args, **kwargs)
+                    try:
+                        fn(*args, **kwargs)
+                    except Exception as err:
+                        run_once._exception("an error has occurred: %s", err)
 
                 # done with this list
                 del fnlist
